@@ -224,7 +224,8 @@ theorem window_closed_form (n d : Nat) (pt now T : Int) (hn : 0 < n) (hT : 0 < T
         (mineTimeout := T) (nodeCount := (n : Int))
         = (pt + q * (n * T) + ((d : Int) - 1) * T, pt + q * (n * T) + (d : Int) * T) ∧
       now < pt + q * (n * T) + (d : Int) * T ∧
-      (pt ≤ now → pt + q * (n * T) + (d : Int) * T - n * T ≤ now) := by
+      (pt ≤ now → pt + q * (n * T) + (d : Int) * T - n * T ≤ now) ∧
+      (now < pt → q = 0) := by
   have hL : (0 : Int) < n * T := Int.mul_pos (by exact_mod_cast hn) hT
   unfold GetNextMineWindow
   have hsub : GoSem.usub 4294967296 d 1 = d - 1 := GoSem.usub_small hd1 (by omega)
@@ -243,7 +244,7 @@ theorem window_closed_form (n d : Nat) (pt now T : Int) (hn : 0 < n) (hT : 0 < T
     have hnot : ¬ (pt + 0 * ((n : Int) * T) + (d : Int) * T ≤ now) := by
       simp only [Int.zero_mul, Int.add_zero]; omega
     simp only [hnot, decide_false, Bool.false_eq_true, if_false]
-    refine ⟨0, le_refl _, rfl, ?_, ?_⟩
+    refine ⟨0, le_refl _, rfl, ?_, ?_, fun _ => rfl⟩
     · simp only [Int.zero_mul, Int.add_zero]; omega
     · intro h; omega
   · simp only [hneg, decide_false, Bool.false_eq_true, if_false]
@@ -261,7 +262,7 @@ theorem window_closed_form (n d : Nat) (pt now T : Int) (hn : 0 < n) (hT : 0 < T
       linarith
     by_cases hle : pt + q * ((n : Int) * T) + (d : Int) * T ≤ now
     · simp only [hle, decide_true, if_true]
-      refine ⟨q + 1, by omega, ?_, ?_, ?_⟩
+      refine ⟨q + 1, by omega, ?_, ?_, ?_, fun h => by omega⟩
       · apply Prod.ext <;> simp only <;> ring
       · have : (q + 1) * ((n : Int) * T) = q * (n * T) + n * T := by ring
         rw [this]
@@ -271,7 +272,7 @@ theorem window_closed_form (n d : Nat) (pt now T : Int) (hn : 0 < n) (hT : 0 < T
         have : (q + 1) * ((n : Int) * T) = q * (n * T) + n * T := by ring
         rw [this]; linarith
     · simp only [hle, decide_false, Bool.false_eq_true, if_false]
-      refine ⟨q, hq0, rfl, by omega, ?_⟩
+      refine ⟨q, hq0, rfl, by omega, ?_, fun h => by omega⟩
       intro _
       linarith
 
@@ -284,7 +285,7 @@ theorem window_accepts (n d : Nat) (pt now T t : Int) (hn : 0 < n) (hT : 0 < T)
     (hw' : t < (GetNextMineWindow (nextHeight := 0) (distance := d) (parentTime := pt) (currentTime := now)
             (mineTimeout := T) (nodeCount := (n : Int))).2) :
     pt ≤ t ∧ dist n T pt t = d := by
-  obtain ⟨q, hq0, heq, _, _⟩ := window_closed_form n d pt now T hn hT hd1 hdn hn'
+  obtain ⟨q, hq0, heq, _, _, _⟩ := window_closed_form n d pt now T hn hT hd1 hdn hn'
   rw [heq] at hw hw'
   simp only at hw hw'
   have hL : (0 : Int) < n * T := Int.mul_pos (by exact_mod_cast hn) hT
@@ -305,7 +306,7 @@ theorem window_is_earliest_open_slot (n d : Nat) (pt now T : Int) (hn : 0 < n) (
     let w := GetNextMineWindow (nextHeight := 0) (distance := d) (parentTime := pt) (currentTime := now)
             (mineTimeout := T) (nodeCount := (n : Int))
     w.2 - w.1 = T ∧ now < w.2 ∧ pt ≤ w.1 ∧ (pt ≤ now → w.2 - n * T ≤ now) := by
-  obtain ⟨q, hq0, heq, h1, h2⟩ := window_closed_form n d pt now T hn hT hd1 hdn hn'
+  obtain ⟨q, hq0, heq, h1, h2, _⟩ := window_closed_form n d pt now T hn hT hd1 hdn hn'
   simp only [heq]
   have hL : (0 : Int) < n * T := Int.mul_pos (by exact_mod_cast hn) hT
   have hqL : 0 ≤ q * ((n : Int) * T) := Int.mul_nonneg hq0 (le_of_lt hL)
@@ -322,7 +323,7 @@ theorem seconds_stamp_accepts (n d : Nat) (pts : Nat) (now T t : Int) (hn : 0 < 
     (hw' : t < (GetNextMineWindow (nextHeight := 0) (distance := d) (parentTime := (pts : Int) * 1000) (currentTime := now)
             (mineTimeout := T) (nodeCount := (n : Int))).2) :
     dist n T ((pts : Int) * 1000) (t / 1000 * 1000) = d := by
-  obtain ⟨q, hq0, heq, _, _⟩ := window_closed_form n d ((pts : Int) * 1000) now T hn hT hd1 hdn hn'
+  obtain ⟨q, hq0, heq, _, _, _⟩ := window_closed_form n d ((pts : Int) * 1000) now T hn hT hd1 hdn hn'
   have hw0 := hw
   rw [heq] at hw0
   simp only at hw0
@@ -366,6 +367,63 @@ theorem window_never_rejected (n : Nat) (special : Bool) (pr : Option Nat) (me :
     rw [GoSem.toU_small (by omega) (by omega)]; simp
   simp only [this]
   exact hinv
+
+/-- **sleep_wakes_in_window** (`miner.getSleepTime`): the instant the miner wakes up to seal
+    (`now + waitTime`) lies inside the window `GetNextMineWindow` gives it — also when the
+    "next block is mine, wait one block interval" adjustment applies — provided the configured
+    block interval is shorter than the slot (`0 ≤ blockInterval < timeout`, a configuration guard);
+    and the deadline it returns is the end of that window. Together with `window_accepts` the block
+    sealed at wake-up time is in turn. -/
+theorem sleep_wakes_in_window (n d : Nat) (pt now T bi : Int) (hn : 0 < n) (hT : 0 < T)
+    (hd1 : 1 ≤ d) (hdn : d ≤ n) (hn' : n < 1000000000) (hbi0 : 0 ≤ bi) (hbi : bi < T) :
+    let r := getSleepTime (mineHeight := 0) (distance := d) (parentTime := pt) (currentTime := now)
+              (m_timeoutTime := T) (nodeCount := (n : Int)) (m_blockInterval := bi)
+    let w := GetNextMineWindow (nextHeight := 0) (distance := d) (parentTime := pt) (currentTime := now)
+              (mineTimeout := T) (nodeCount := (n : Int))
+    0 ≤ r.1 ∧ r.2 = w.2 ∧ w.1 ≤ now + r.1 ∧ now + r.1 < w.2 := by
+  obtain ⟨q, hq0, heq, hlt, hprev, hq00⟩ := window_closed_form n d pt now T hn hT hd1 hdn hn'
+  have hL : (0 : Int) < n * T := Int.mul_pos (by exact_mod_cast hn) hT
+  have hqL : 0 ≤ q * ((n : Int) * T) := Int.mul_nonneg hq0 (le_of_lt hL)
+  have hdT : 0 ≤ ((d : Int) - 1) * T := Int.mul_nonneg (by omega) (le_of_lt hT)
+  have hdT' : (d : Int) * T = ((d : Int) - 1) * T + T := by ring
+  unfold getSleepTime
+  simp only [heq]
+  by_cases hA : ((d == 1) && decide (now - pt < T)) = true
+  · -- the next block is mine and the parent is fresh: wait one block interval
+    simp only [hA, if_true]
+    have hd : d = 1 := by
+      have := (Bool.and_eq_true _ _).mp hA
+      simpa using this.1
+    have hpass : now - pt < T := by
+      have := (Bool.and_eq_true _ _).mp hA
+      simpa using this.2
+    subst hd
+    -- q = 0
+    have hq : q = 0 := by
+      by_cases hnp : now < pt
+      · exact hq00 hnp
+      · have h1 := hprev (by omega)
+        have hnT : (n : Int) * T ≥ T := by
+          have : (1 : Int) ≤ n := by exact_mod_cast hn
+          have := Int.mul_le_mul_of_nonneg_right this (le_of_lt hT)
+          linarith
+        by_contra hne
+        have hq1 : 1 ≤ q := by omega
+        have : (n : Int) * T ≤ q * (n * T) := by
+          have := Int.mul_le_mul_of_nonneg_right hq1 (le_of_lt hL)
+          linarith
+        simp only [Nat.cast_one, one_mul] at h1
+        linarith
+    subst hq
+    simp only [Nat.cast_one, one_mul, zero_mul, add_zero, sub_self] at *
+    by_cases hw : pt + bi - now < 0
+    · simp only [hw, decide_true, if_true]; refine ⟨le_refl _, trivial, ?_, ?_⟩ <;> linarith
+    · simp only [hw, decide_false, Bool.false_eq_true, if_false]; refine ⟨by linarith, trivial, ?_, ?_⟩ <;> linarith
+  · have hA' : ((d == 1) && decide (now - pt < T)) = false := by simpa using hA
+    simp only [hA', Bool.false_eq_true, if_false]
+    by_cases hw : pt + q * ((n : Int) * T) + ((d : Int) - 1) * T - now < 0
+    · simp only [hw, decide_true, if_true]; refine ⟨le_refl _, trivial, ?_, ?_⟩ <;> linarith
+    · simp only [hw, decide_false, Bool.false_eq_true, if_false]; refine ⟨by linarith, trivial, ?_, ?_⟩ <;> linarith
 
 /-! ### non-vacuity: concrete instances of the hypotheses -/
 
